@@ -53,7 +53,7 @@ class TransactionContextDecorator:
     def __init__(self, mode: TransactionMode | None = None, timeout: float | None = None):
         self._mode = mode
         self._timeout = timeout
-        self._inner = False
+        self._inner = 0  # how many blocks of this object are open on top of a transaction that was already running
         self._return_token: Token | None = None
         self._tx: Transaction | None = None
 
@@ -63,7 +63,7 @@ class TransactionContextDecorator:
 
     async def __aenter__(self) -> Transaction:
         if self.current_tx:
-            self._inner = True
+            self._inner += 1
             return self.current_tx
         return self.start()
 
@@ -78,8 +78,11 @@ class TransactionContextDecorator:
         _transaction.reset(self._return_token)
 
     async def __aexit__(self, exc_type, exc_value, exc_tb) -> None:
-        if not self._tx or self._inner:
-            self._inner = False
+        if self._inner:
+            # an inner block (of this or of another object's transaction): the outermost one finishes it
+            self._inner -= 1
+            return
+        if not self._tx:
             return
         try:
             if not exc_tb:
